@@ -26,7 +26,7 @@ LABELS = ["material_id", "number", "hall_number", "point_group", "bravais", "cry
 
 
 def floors(tier):
-    return {REL: 400 if tier == "quick" else 5000}
+    return {REL: 400 if tier == "quick" else 10000}
 
 
 def gen_cases(tier, seed):
@@ -38,7 +38,7 @@ def gen_cases(tier, seed):
 def _gen_cases(tier, seed):
     if tier == "quick":
         return symfam.gen_cases(tier, seed, 6, per_group=1, n_pres=3, extra_random=20) + symfam.gen_letter_cases(tier, seed, 6, 2, n_pres=3) + symfam.gen_fixed_cases(tier, seed, 6, 6, n_pres=3)
-    return symfam.gen_cases(tier, seed, 6, per_group=5, n_pres=6, extra_random=300) + symfam.gen_letter_cases(tier, seed, 6, 12, n_pres=4) + symfam.gen_fixed_cases(tier, seed, 6, 40, n_pres=4)
+    return symfam.gen_cases(tier, seed, 6, per_group=10, n_pres=6, extra_random=600) + symfam.gen_letter_cases(tier, seed, 6, 20, n_pres=4) + symfam.gen_fixed_cases(tier, seed, 6, 60, n_pres=4)
 
 
 def run_case(case):
